@@ -636,6 +636,7 @@ type Unit struct {
 	Name   string
 	Weight int // relative cost, for balancing
 	Solo   bool // must run in a shard of its own process (metering)
+	Fresh  bool // must run in a process of its own whose package state is cold; normal scheduling
 	Run    func(c *Ctx)
 }
 
